@@ -2,7 +2,7 @@ import IofloModel.Model.Clauses
 import IofloModel.Drv.Proto
 /-! driver for the clause-loop model (engine `clauses`).
 
-request  `region <D9|D51|D52|D53> <clauses>`   clause texts `tok,tok;tok,tok`; reply 0|1 (the Lean region predicate)
+request  `region <D9|D61|D62|D63> <clauses>`   clause texts `tok,tok;tok,tok`; reply 0|1 (the Lean region predicate)
 request  `<verb> <fix 0|1> <tokens>`   verb = framer | frame | do | aux | rear | log | logger | server | marker |
          direct | indirect | indirectnode | fields | relation;  tokens = comma-separated hex (UTF-8), `-` = none
 reply    `ERR parse|value|type|index|overflow`  or  `ok key=value …`
@@ -108,9 +108,9 @@ def decodeClauses (w : String) : Option (List (List Str)) :=
 def region (id : String) (cs : List (List Str)) : Option Bool :=
   match id with
   | "D9" => some (d9Region cs)
-  | "D51" => some (d51Region cs)
-  | "D52" => some (d52Region cs)
-  | "D53" => some (d53Region cs)
+  | "D61" => some (d61Region cs)
+  | "D62" => some (d62Region cs)
+  | "D63" => some (d63Region cs)
   | _ => none
 
 def step (_ : Unit) (line : String) : Unit × String :=
